@@ -173,6 +173,18 @@ func init() {
 	})
 	p("vOr", func(fr *frame, a []value) value { return fr.i.orv(a[0], a[1]) })
 	p("vAnd", func(fr *frame, a []value) value { return fr.i.andv(a[0], a[1]) })
+	p("vB2I", func(fr *frame, a []value) value {
+		switch b := a[0].(type) {
+		case bool:
+			if b {
+				return 1
+			}
+			return 0
+		case *Term:
+			return norm(types.Int, fr.i.tt.Ite(b, fr.i.tt.Const(64, 1), fr.i.tt.Const(64, 0)))
+		}
+		panic("vB2I")
+	})
 	p("vStub", func(fr *frame, a []value) value {
 		fr.i.ps.stubs[fr.primName(a[0])] = true
 		return nil
